@@ -157,3 +157,136 @@ def wire_names(cls):
     return out
 
 
+
+
+# ---- shape comparison (used where the metamodel type contains an anonymous literal, whose
+#      generated class name is a naming detail the property does not fix)
+def _flatU(parts):
+    out = set()
+    for x in parts:
+        if x.startswith("U(") and x.endswith(")"):
+            out |= set(_splitU(x[2:-1]))
+        else:
+            out.add(x)
+    return sorted(out)
+
+
+def _splitU(s):
+    parts, depth, cur = [], 0, ""
+    for ch in s:
+        if ch in "({":
+            depth += 1
+        elif ch in ")}":
+            depth -= 1
+        if ch == "|" and depth == 0:
+            parts.append(cur)
+            cur = ""
+        else:
+            cur += ch
+    if cur:
+        parts.append(cur)
+    return parts
+
+
+def _U(parts):
+    fl = _flatU(parts)
+    return fl[0] if len(fl) == 1 else "U(" + "|".join(fl) + ")"
+
+
+def shape_py(t):
+    import collections.abc
+    if t is int:
+        return "int"
+    if t is float:
+        return "float"
+    if t is str:
+        return "str"
+    if t is bool:
+        return "bool"
+    if t is type(None):
+        return "None"
+    if t is typing.Any:
+        return "Any"
+    if t is getattr(types, "LSPObject", None):
+        return "LSPObject"
+    if isinstance(t, type):
+        if attrs.has(t):
+            if t.__name__ in STRUCTS:
+                return t.__name__
+            wm = wire_names(t)
+            items = []
+            for f in attrs.fields(t):
+                items.append(f"{wm[f.name][0]}:{shape_py(f.type)}{'' if f.default is attrs.NOTHING else '?'}")
+            return "lit{" + ",".join(sorted(items)) + "}"
+        return t.__name__
+    o, a = typing.get_origin(t), typing.get_args(t)
+    if o is typing.Union:
+        return _U([shape_py(x) for x in a])
+    if o in (collections.abc.Sequence, list):
+        return f"S({shape_py(a[0])})"
+    if o is dict:
+        return f"D({shape_py(a[0])},{shape_py(a[1])})"
+    if o is tuple:
+        return "T(" + ",".join(shape_py(x) for x in a) + ")"
+    if o is typing.Literal:
+        return "str"
+    return repr(t)
+
+
+def shape_meta(t, depth=0):
+    k = t["kind"]
+    if k == "base":
+        return {"decimal": "float", "boolean": "bool", "integer": "int", "uinteger": "int", "string": "str", "DocumentUri": "str", "URI": "str", "null": "None"}.get(t["name"], "?" + t["name"])
+    if k == "reference":
+        n = t["name"]
+        if n == "LSPAny":
+            return _U(["Any", "None"])
+        if n == "LSPObject":
+            return "LSPObject"
+        if n in ENUMS:
+            e = ENUMS[n]
+            if e.get("supportsCustomValues") or n == "CompletionItemKind":
+                return _U([n, "str" if e["type"]["name"] == "string" else "int"])
+            return n
+        if n in STRUCTS:
+            return n
+        if n in ALIASES and depth < 20:
+            return shape_meta(ALIASES[n]["type"], depth + 1)
+        return "?" + n
+    if k == "array":
+        return f"S({shape_meta(t['element'], depth + 1)})"
+    if k == "map":
+        return f"D({shape_meta(t['key'], depth + 1)},{shape_meta(t['value'], depth + 1)})"
+    if k == "tuple":
+        return "T(" + ",".join(shape_meta(i, depth + 1) for i in t["items"]) + ")"
+    if k == "or":
+        return _U([shape_meta(i, depth + 1) for i in t["items"]])
+    if k == "stringLiteral":
+        return "str"
+    if k == "literal":
+        props = t["value"]["properties"]
+        if not props:
+            return "Any"
+        items = []
+        for p in props:
+            opt = bool(p.get("optional")) or null_admitting(p["type"])
+            sh = shape_meta(p["type"], depth + 1)
+            if opt:
+                sh = _U([sh, "None"])
+            lit = p["type"]["kind"] == "stringLiteral"
+            items.append(f"{p['name']}:{sh}{'?' if (opt or lit) else ''}")
+        return "lit{" + ",".join(sorted(items)) + "}"
+    return "?" + k
+
+
+def contains_literal(t):
+    k = t["kind"]
+    if k == "literal":
+        return bool(t["value"]["properties"])
+    if k == "array":
+        return contains_literal(t["element"])
+    if k == "map":
+        return contains_literal(t["value"])
+    if k in ("or", "and", "tuple"):
+        return any(contains_literal(i) for i in t["items"])
+    return False
